@@ -28,6 +28,8 @@
 (*                  after its length prefix; "trunccid" (CAR) inside its   *)
 (*                  CID                                                    *)
 (*     "zerolen"    (CAR) a zero-length section                            *)
+(*     "shortcid"   (CAR) a section too short to hold its CID, ending      *)
+(*                  exactly on a field boundary of the CID                 *)
 (*     "oversize"   (CAR) a section length above the 32 MiB cap            *)
 (*     "nonbytes"   (CBOR) the list element is not a byte string           *)
 (*   frame damage: "version" (wrong version key / CAR version), "extrakey" *)
@@ -66,7 +68,7 @@ Entry(i) == [tok |-> i, cid |-> i, state |-> "ok"]
 \* the set a reader must return for an undamaged artefact
 Written == {[cid |-> i, tok |-> i] : i \in Toks}
 
-EntryClasses(fmt) == IF fmt = "car" THEN {"databit", "resealed", "cidbit", "cidswap", "cidident", "cidhash2", "truncated", "truncprefix", "trunccid", "zerolen", "oversize"}
+EntryClasses(fmt) == IF fmt = "car" THEN {"databit", "resealed", "cidbit", "cidswap", "cidident", "cidhash2", "truncated", "truncprefix", "trunccid", "zerolen", "shortcid", "oversize"}
                      ELSE {"databit", "resealed", "truncated", "nonbytes"}
 FrameClasses(fmt, b64) == {"version", "notmap"} \cup (IF fmt = "cbor" THEN {"extrakey"} ELSE {}) \cup (IF b64 THEN {"b64char"} ELSE {})
 
@@ -80,7 +82,7 @@ AddToken(e) ==
 
 \* one CAR block: ldRead, CidFromReader, integrity check, addToken
 CarBlock(e) ==
-  IF e.state \in {"truncated", "truncprefix", "trunccid", "zerolen", "oversize"} THEN "err"
+  IF e.state \in {"truncated", "truncprefix", "trunccid", "zerolen", "shortcid", "oversize"} THEN "err"
   ELSE IF e.state \in {"databit", "cidbit", "cidswap", "cidhash2"} /\ "NoIntegrityCheck" \notin Deviations THEN "err"
   ELSE IF e.state = "cidident" /\ "NoIntegrityCheck" \notin Deviations /\ "IdentityCidTrusted" \notin Deviations THEN "err"
   ELSE AddToken(e)
